@@ -316,11 +316,117 @@ def extract():
     return table
 
 
+# ------------------------------------------------------------------------------------------ planner-internal monitors
+# Fields a multi-threaded planner shares between its worker threads under one mutex (a monitor).  For every access site
+# inside the WORKER functions (the code that runs on the planner's own threads) the scanner determines which mutex is held:
+# a lock_guard/unique_lock on it declared in an enclosing open block, or a manual `m.lock();` not yet followed by
+# `m.unlock();` in the same function.  Obligation: every worker site holds the field's mutex, and all worker sites of one
+# function sit in ONE lock scope (a compare outside / update inside, or compare in one scope and update in the next, is a
+# check-then-act split).  Sites in the single-threaded phases (constructor, setup, clear, solve before the threads start)
+# and the const progress getters are listed but not part of the obligation.
+PLANNER_FIELDS = [
+    # (class, file, field, mutex, worker functions, other files with worker sites)
+    ("CForest", "geometric/planners/cforest/src/CForest.cpp", "bestCost_", "newSolutionFoundMutex_", ["newSolutionFound"]),
+    ("CForest", "geometric/planners/cforest/src/CForest.cpp", "numPathsShared_", "newSolutionFoundMutex_", ["newSolutionFound"]),
+    ("CForest", "geometric/planners/cforest/src/CForest.cpp", "numStatesShared_", "newSolutionFoundMutex_", ["newSolutionFound"]),
+    ("CForest", "geometric/planners/cforest/src/CForest.cpp", "statesShared_", "newSolutionFoundMutex_", ["newSolutionFound"]),
+    ("CForest", "geometric/planners/cforest/CForest.h", "samplers_", "addSamplerMutex_", ["addSampler"]),
+    ("CForestStateSampler", "geometric/planners/cforest/src/CForestStateSampler.cpp", "statesToSample_", "statesLock_",
+     ["setStatesToSample", "getNextSample", "clear"]),
+]
+
+
+def function_name(header):
+    m = re.search(r"([~\w]+)\s*\([^()]*(?:\([^()]*\)[^()]*)*\)\s*(?:const)?\s*(?:noexcept)?\s*(?:override)?\s*$", header.strip())
+    return m.group(1) if m else None
+
+
+def scan_field(path, field, mutex):
+    """every occurrence of `field` in the file -> dict(line, fn, held (bool), scope (offset of the lock statement), text)"""
+    raw = open(path, errors="replace").read()
+    src = strip_comments(raw)
+    bl = blocks(src)
+    sites = []
+    for m in re.finditer(r"\b" + re.escape(field) + r"\b", src):
+        off = m.start()
+        enclosing = sorted([b for b in bl if b[0] < off < b[1]], key=lambda b: b[0])
+        fn, fn_off = None, None
+        for (o, c, h) in enclosing:
+            if re.search(r"\)\s*(?:const)?\s*(?:noexcept)?\s*(?:override)?\s*(?::[^{};]*)?$", h.strip()) and "[" not in h.split("(")[0] \
+                    and not re.match(r"\s*(?:if|for|while|switch|catch)\b", h.strip()):
+                fn = function_name(re.sub(r":[^:{};]*$", "", h) if re.search(r"\)\s*:[^:]", h) else h)
+                fn_off = o
+                break
+        if fn is None:
+            continue    # declaration / default initialiser at class level
+        held, scope = False, None
+        # scoped lock objects on this mutex in an enclosing, still open block
+        for (o, c, h) in enclosing:
+            if o < fn_off:
+                continue
+            for lm in re.finditer(r"\b(?:std::)?(?:lock_guard|unique_lock|scoped_lock)\s*(?:<[^;{}]*?>)?\s+\w+\s*[({]\s*" +
+                                  re.escape(mutex) + r"\b", src[o:off]):
+                inner = [b for b in bl if o < b[0] and b[1] < off and b[0] < o + lm.start() < b[1]]
+                if not inner:
+                    held, scope = True, o + lm.start()
+        # manual lock()/unlock() in the same function, textual order
+        if not held:
+            body = src[fn_off:off]
+            locks = [x.start() for x in re.finditer(r"\b" + re.escape(mutex) + r"\s*\.\s*lock\s*\(\s*\)", body)]
+            unlocks = [x.start() for x in re.finditer(r"\b" + re.escape(mutex) + r"\s*\.\s*unlock\s*\(\s*\)", body)]
+            if locks and (not unlocks or unlocks[-1] < locks[-1]):
+                held, scope = True, fn_off + locks[-1]
+        ls = raw.rfind("\n", 0, off) + 1
+        le = raw.find("\n", off)
+        sites.append({"line": line_of(src, off), "fn": fn, "held": held, "scope": scope, "text": raw[ls:le].strip()[:100]})
+    return sites
+
+
+def extract_planner_fields():
+    out = []
+    for cls, rel, field, mutex, workers in PLANNER_FIELDS:
+        path = os.path.join(SRC, rel)
+        if not os.path.isfile(path):
+            raise SystemExit("shared_access: %s is missing" % path)
+        files = [path]
+        # the class's header and source both count
+        alt = path.replace("/src/", "/").replace(".cpp", ".h") if path.endswith(".cpp") else \
+            os.path.join(os.path.dirname(path), "src", os.path.basename(path).replace(".h", ".cpp"))
+        if os.path.isfile(alt):
+            files.append(alt)
+        sites = []
+        for f in files:
+            for st in scan_field(f, field, mutex):
+                st["file"] = os.path.relpath(f, REPO)
+                sites.append(st)
+        worker = [st for st in sites if st["fn"] in workers]
+        if not worker:
+            raise SystemExit("shared_access: no access to %s::%s in %s (renamed? update PLANNER_FIELDS)" % (cls, field, workers))
+        bad = [dict(st, why="no lock") for st in worker if not st["held"]]
+        per_fn = {}
+        for st in worker:
+            if st["held"]:
+                per_fn.setdefault((st["file"], st["fn"]), {}).setdefault(st["scope"], []).append(st)
+        for key, scopes in per_fn.items():
+            if len(scopes) > 1:
+                for sc in sorted(scopes)[1:]:
+                    bad.append(dict(scopes[sc][0], why="second lock scope in one function"))
+        other = [st for st in sites if st["fn"] not in workers]
+        out.append({
+            "name": "%s::%s" % (cls, field), "member": field, "cls": cls, "file": os.path.relpath(path, REPO), "mutex": mutex,
+            "workers": workers, "worker_sites": len(worker),
+            "unguarded": ["%s:%d %s (%s)" % (st["file"], st["line"], st["fn"], st["why"]) for st in bad],
+            "unguarded_text": [st["text"] for st in bad][:6],
+            "other_sites": sorted(set("%s:%d %s%s" % (st["file"], st["line"], st["fn"], "" if st["held"] else " (no lock)") for st in other)),
+        })
+    return out
+
+
 def lean_str(s):
     return '"' + s.replace("\\", "\\\\").replace('"', '\\"') + '"'
 
 
-def render(table):
+def render(table, fields=()):
     L = []
     L.append("import OmplModel.Props.C19")
     L.append("/-!")
@@ -382,6 +488,30 @@ def render(table):
     L.append("    ((exec GStep.apply (seedThreads m.kind N k) GStore.init is).handed.map Prod.snd).Nodup :=")
     L.append("  (OmplModel.Props.C19.seedgen_distinct m.kind (surface_no_plain m hm) N k is).1")
     L.append("")
+    L.append("/-! ## planner-internal monitors (fields a multi-threaded planner shares between its worker threads) -/")
+    L.append("")
+    L.append("structure Field where")
+    L.append("  name : String")
+    L.append("  mutex : String")
+    L.append("  workers : List String        -- functions that run on the planner's worker threads")
+    L.append("  workerSites : Nat            -- access sites inside them")
+    L.append("  unguarded : List String      -- worker sites not holding the mutex, or split over two lock scopes")
+    L.append("  otherSites : List String     -- sites in single-threaded phases / progress getters (not part of the obligation)")
+    L.append("")
+    L.append("def plannerFields : List Field := [")
+    rows = []
+    for f in fields:
+        rows.append("  ⟨%s, %s, [%s], %d, [%s], [%s]⟩" % (
+            lean_str(f["name"]), lean_str(f["mutex"]), ", ".join(lean_str(w) for w in f["workers"]), f["worker_sites"],
+            ", ".join(lean_str(u) for u in f["unguarded"][:12]), ", ".join(lean_str(u) for u in f["other_sites"][:16])))
+    L.append(",\n".join(rows))
+    L.append("]")
+    L.append("")
+    L.append("/-- **the obligation**: every access to a guarded field from a worker thread holds its lock, in one lock scope per")
+    L.append("function (no check outside / act inside).  This is what makes the monitor step of the model —")
+    L.append("`MStep.report`, one step — the right granularity for `OmplModel.Props.C19.cforest_best_cost_monotone`. -/")
+    L.append("theorem planner_fields_guarded : ∀ f ∈ plannerFields, f.unguarded = [] := by decide")
+    L.append("")
     L.append("end OmplModel.Generated.SharedAccess")
     return "\n".join(L) + "\n"
 
@@ -389,7 +519,8 @@ def render(table):
 def regenerate():
     """extract + write (under a lock, only on change).  Returns (table, changed)."""
     table = extract()
-    text = render(table)
+    fields = extract_planner_fields()
+    text = render(table, fields)
     os.makedirs(os.path.dirname(OUT), exist_ok=True)
     with open(OUT + ".lock", "w") as lk:
         fcntl.flock(lk, fcntl.LOCK_EX)
@@ -400,14 +531,20 @@ def regenerate():
             open(tmp, "w").write(text)
             os.replace(tmp, OUT)
         fcntl.flock(lk, fcntl.LOCK_UN)
+    regenerate.fields = fields
     return table, changed
 
 
 if __name__ == "__main__":
     if "--json" in sys.argv:
         print(json.dumps(extract(), indent=1))
+    elif "--fields" in sys.argv:
+        print(json.dumps(extract_planner_fields(), indent=1))
     else:
         t, ch = regenerate()
+        for f in regenerate.fields:
+            print("%-55s %-24s worker sites=%d %s" % (f["name"], f["mutex"], f["worker_sites"],
+                                                      ("UNGUARDED " + "; ".join(f["unguarded"][:4])) if f["unguarded"] else ""))
         for m in t:
             print("%-55s %-13s %-40s sites=%d %s" % (m["name"], m["kind"], m["decl_type"], m["sites"],
                                                      ("UNGUARDED " + ",".join(m["unguarded"][:4])) if m["unguarded"] else ""))
